@@ -3,12 +3,13 @@
 # usage: tools/run_all.sh [seed ...]      (default seeds: 0 1 2)
 here=$(cd "$(dirname "$0")/.." && pwd); cd "$here" || exit 2
 [ -d lean/.lake ] || ./setup.sh >/dev/null 2>&1
+tier="${VERIF_TIER:-quick}"
 seeds="${*:-0 1 2}"
 props=$(python3 -c "import json;print(' '.join(c['property_id'] for c in json.load(open('MANIFEST.json'))['checks']))")
 rc=0
 for s in $seeds; do
   for p in $props; do
-    out=$(VERIF_SEED=$s ./check $p --tier quick 2>&1); code=$?
+    out=$(VERIF_SEED=$s ./check $p --tier $tier 2>&1); code=$?
     echo "seed=$s $p exit=$code $(echo "$out" | grep -c '^VIOLATION') violation-lines :: $(echo "$out" | tail -1)"
     [ $code -ne 0 ] && rc=1
   done
